@@ -99,7 +99,7 @@ def run_check(prop, tier, seed):
     notes = []
 
     # 1. proof side
-    proof = core.proof_side(prop.id)
+    proof = core.proof_side(prop.id, tier)
 
     # 2. builds
     ok_d, log_d = core.build_driver()
@@ -230,6 +230,7 @@ def run_check(prop, tier, seed):
         'checker_cmd': 'cd coq && make -k -j16 && coqc -Q theories Tephra -Q properties TephraProps properties/%s.v' % prop.id,
         'trusted_base': prop.trusted_base,
         'theorems': [{'name': n, 'axioms': a} for n, a in proof.get('theorems', [])],
+        'coqchk': proof.get('coqchk', 'not run in this tier (thorough tier runs coqchk -o on the property module)'),
         'proof_problems': proof.get('problems', []),
         'evaluations': evaluations,
         'distinct_nontrivial': len(nontrivial_keys),
